@@ -89,6 +89,33 @@ struct LS_s_i64_i64_e X_ldiv(uint64_t a, uint64_t b)
 #define STR_LEN(s)   (*(uint64_t *)((uint8_t *)(s) + 8))
 #define STR_LOCAL(s) ((uint8_t *)(s) + 16)
 #define STR_CAP(s)   (*(uint64_t *)((uint8_t *)(s) + 16))
+
+/* ---------------------------------------------------------------- bounded byte copies for std::string members
+ * CBMC's built-in memcpy/memmove/memset allocate a variable-length array of the (symbolic) size, which makes the
+ * array post-processing explode when string lengths are symbolic.  With -DVF_STR_SMALL=N (chosen per obligation)
+ * the string models copy byte by byte and ASSERT that no copy is longer than N, so nothing is silently truncated. */
+#ifdef VF_STR_SMALL
+static void vf_s_copy(void *dv, const void *sv, uint64_t n)
+{
+  uint8_t *d = (uint8_t *)dv; const uint8_t *s = (const uint8_t *)sv; uint8_t tmp[VF_STR_SMALL];
+  VF_ASSERT(n <= VF_STR_SMALL, "string model: copy longer than VF_STR_SMALL");
+  for (uint64_t i = 0; i < VF_STR_SMALL; ++i) if (i < n) tmp[i] = s[i];
+  for (uint64_t i = 0; i < VF_STR_SMALL; ++i) if (i < n) d[i] = tmp[i];
+}
+static void vf_s_set(void *dv, int c, uint64_t n)
+{
+  uint8_t *d = (uint8_t *)dv;
+  VF_ASSERT(n <= VF_STR_SMALL, "string model: fill longer than VF_STR_SMALL");
+  for (uint64_t i = 0; i < VF_STR_SMALL; ++i) if (i < n) d[i] = (uint8_t)c;
+}
+#define SMEMCPY(d, s, n)  vf_s_copy((d), (s), (uint64_t)(n))
+#define SMEMMOVE(d, s, n) vf_s_copy((d), (s), (uint64_t)(n))
+#define SMEMSET(d, c, n)  vf_s_set((d), (c), (uint64_t)(n))
+#else
+#define SMEMCPY  memcpy
+#define SMEMMOVE memmove
+#define SMEMSET  memset
+#endif
 #define STR_MAX      0x3fffffffffffffffull
 static int str_is_local(void *s) { return STR_P(s) == STR_LOCAL(s); }
 static uint64_t str_capacity(void *s) { return str_is_local(s) ? 15 : STR_CAP(s); }
@@ -101,7 +128,9 @@ void *X__ZNSt7__cxx1112basic_stringIcSt11char_traitsIcESaIcEE9_M_createERmm(void
   uint64_t *cap = (uint64_t *)capp;
   if (*cap > STR_MAX) { vf_throw_std(&G__ZTISt12length_error); return 0; }
   if (*cap > old && *cap < 2 * old) { *cap = 2 * old; if (*cap > STR_MAX) *cap = STR_MAX; }
-  return vf_alloc(*cap + 1);
+  /* storage is rounded up to 64 bytes: the excess is unobservable to client code and keeps the heap shape concrete
+   * for the short strings (names, paths) the harnesses build with symbolic lengths */
+  return vf_alloc(*cap + 1 <= 64 ? 64 : *cap + 1);
 }
 void X__ZNSt7__cxx1112basic_stringIcSt11char_traitsIcESaIcEE9_M_mutateEmmPKcm(void *s, uint64_t pos, uint64_t len1, void *src, uint64_t len2)
 {
@@ -109,9 +138,9 @@ void X__ZNSt7__cxx1112basic_stringIcSt11char_traitsIcESaIcEE9_M_mutateEmmPKcm(vo
   uint64_t new_cap = STR_LEN(s) + len2 - len1;
   uint8_t *r = (uint8_t *)X__ZNSt7__cxx1112basic_stringIcSt11char_traitsIcESaIcEE9_M_createERmm(s, &new_cap, str_capacity(s));
   if (vf_eh_pending) return;
-  if (pos) memcpy(r, STR_P(s), pos);
-  if (src && len2) memcpy(r + pos, src, len2);
-  if (how_much) memcpy(r + pos + len2, STR_P(s) + pos + len1, how_much);
+  if (pos) SMEMCPY(r, STR_P(s), pos);
+  if (src && len2) SMEMCPY(r + pos, src, len2);
+  if (how_much) SMEMCPY(r + pos + len2, STR_P(s) + pos + len1, how_much);
   str_dispose(s);
   STR_P(s) = r;
   STR_CAP(s) = new_cap;
@@ -122,7 +151,7 @@ void X__ZNSt7__cxx1112basic_stringIcSt11char_traitsIcESaIcEE7reserveEm(void *s, 
   if (res <= cap) return;
   uint8_t *r = (uint8_t *)X__ZNSt7__cxx1112basic_stringIcSt11char_traitsIcESaIcEE9_M_createERmm(s, &res, cap);
   if (vf_eh_pending) return;
-  memcpy(r, STR_P(s), STR_LEN(s) + 1);
+  SMEMCPY(r, STR_P(s), STR_LEN(s) + 1);
   str_dispose(s);
   STR_P(s) = r;
   STR_CAP(s) = res;
@@ -130,7 +159,7 @@ void X__ZNSt7__cxx1112basic_stringIcSt11char_traitsIcESaIcEE7reserveEm(void *s, 
 void *X__ZNSt7__cxx1112basic_stringIcSt11char_traitsIcESaIcEE9_M_appendEPKcm(void *s, void *src, uint64_t n)
 {
   uint64_t len = n + STR_LEN(s);
-  if (len <= str_capacity(s)) { if (n) memcpy(STR_P(s) + STR_LEN(s), src, n); }
+  if (len <= str_capacity(s)) { if (n) SMEMCPY(STR_P(s) + STR_LEN(s), src, n); }
   else { X__ZNSt7__cxx1112basic_stringIcSt11char_traitsIcESaIcEE9_M_mutateEmmPKcm(s, STR_LEN(s), 0, src, n); if (vf_eh_pending) return s; }
   str_set_length(s, len);
   return s;
@@ -145,7 +174,7 @@ void X__ZNSt7__cxx1112basic_stringIcSt11char_traitsIcESaIcEE9_M_assignERKS4_(voi
     if (vf_eh_pending) return;
     str_dispose(s); STR_P(s) = r; STR_CAP(s) = nc;
   }
-  if (rsize) memcpy(STR_P(s), STR_P(o), rsize);
+  if (rsize) SMEMCPY(STR_P(s), STR_P(o), rsize);
   str_set_length(s, rsize);
 }
 void *X__ZNSt7__cxx1112basic_stringIcSt11char_traitsIcESaIcEE10_M_replaceEmmPKcm(void *s, uint64_t pos, uint64_t len1, void *src, uint64_t len2)
@@ -157,8 +186,8 @@ void *X__ZNSt7__cxx1112basic_stringIcSt11char_traitsIcESaIcEE10_M_replaceEmmPKcm
     uint8_t *p = STR_P(s) + pos;
     uint64_t how_much = old - pos - len1;
     /* source never aliases the string in the code under test (checked: no self-replace); plain moves */
-    if (how_much && len1 != len2) memmove(p + len2, p + len1, how_much);
-    if (len2) memmove(p, src, len2);
+    if (how_much && len1 != len2) SMEMMOVE(p + len2, p + len1, how_much);
+    if (len2) SMEMMOVE(p, src, len2);
   } else {
     X__ZNSt7__cxx1112basic_stringIcSt11char_traitsIcESaIcEE9_M_mutateEmmPKcm(s, pos, len1, src, len2);
     if (vf_eh_pending) return s;
@@ -174,19 +203,19 @@ void *X__ZNSt7__cxx1112basic_stringIcSt11char_traitsIcESaIcEE14_M_replace_auxEmm
   if (ns <= str_capacity(s)) {
     uint8_t *p = STR_P(s) + pos;
     uint64_t how_much = old - pos - n1;
-    if (how_much && n1 != n2) memmove(p + n2, p + n1, how_much);
+    if (how_much && n1 != n2) SMEMMOVE(p + n2, p + n1, how_much);
   } else {
     X__ZNSt7__cxx1112basic_stringIcSt11char_traitsIcESaIcEE9_M_mutateEmmPKcm(s, pos, n1, 0, n2);
     if (vf_eh_pending) return s;
   }
-  if (n2) memset(STR_P(s) + pos, c, n2);
+  if (n2) SMEMSET(STR_P(s) + pos, c, n2);
   str_set_length(s, ns);
   return s;
 }
 void X__ZNSt7__cxx1112basic_stringIcSt11char_traitsIcESaIcEE8_M_eraseEmm(void *s, uint64_t pos, uint64_t n)
 {
   uint64_t how_much = STR_LEN(s) - pos - n;
-  if (how_much && n) memmove(STR_P(s) + pos, STR_P(s) + pos + n, how_much);
+  if (how_much && n) SMEMMOVE(STR_P(s) + pos, STR_P(s) + pos + n, how_much);
   str_set_length(s, STR_LEN(s) - n);
 }
 void X__ZNSt7__cxx1112basic_stringIcSt11char_traitsIcESaIcEE10_M_disposeEv(void *s) { str_dispose(s); }
@@ -429,7 +458,7 @@ void X__ZNSt7__cxx1112basic_stringIcSt11char_traitsIcESaIcEE12_M_constructEmc(vo
     if (vf_eh_pending) return;
     STR_P(s) = r; STR_CAP(s) = cap;
   }
-  if (n) memset(STR_P(s), c, (size_t)n);
+  if (n) SMEMSET(STR_P(s), c, (size_t)n);
   str_set_length(s, n);
 }
 void *X__ZNSt7__cxx1112basic_stringIcSt11char_traitsIcESaIcEEaSEOS4_(void *s, void *o)
@@ -437,7 +466,7 @@ void *X__ZNSt7__cxx1112basic_stringIcSt11char_traitsIcESaIcEEaSEOS4_(void *s, vo
   if (s == o) return s;
   if (str_is_local(o)) {
     uint64_t n = STR_LEN(o);
-    if (n) memcpy(STR_P(s), STR_P(o), (size_t)n);      /* capacity of s is at least 15 >= n */
+    if (n) SMEMCPY(STR_P(s), STR_P(o), (size_t)n);      /* capacity of s is at least 15 >= n */
     str_set_length(s, n);
   } else {
     uint8_t *old = str_is_local(s) ? 0 : STR_P(s);
